@@ -17,7 +17,8 @@ import (
 
 func c41isMutexType(t types.Type) bool {
 	s := types.Unalias(t).String()
-	return s == "sync.Mutex" || s == "sync.RWMutex"
+	// under -tags synctests the kgo mutexes are the channel-backed xsync types
+	return s == "sync.Mutex" || s == "sync.RWMutex" || strings.HasSuffix(s, "/xsync.Mutex") || strings.HasSuffix(s, "/xsync.RWMutex")
 }
 
 func c41isAtomicType(t types.Type) bool {
